@@ -64,8 +64,8 @@ def trees(draw, depth=0, budget=None):
 
 
 @st.composite
-def cases(draw):
-    tree = draw(trees())
+def cases(draw, tier="quick"):
+    tree = draw(trees(budget=[draw(st.integers(4, 30 if tier == "quick" else 60))]))
     progs = []
     for _ in range(4):
         b = draw(history_program(max_steps=6, max_elems=8))
@@ -311,7 +311,7 @@ def check_case(case, rec=None):
     return mm
 
 
-N = {"quick": 500, "thorough": 10000}
+N = {"quick": 500, "thorough": 5000}
 
 
 def shard_plan(tier):
@@ -320,7 +320,7 @@ def shard_plan(tier):
 
 def run_shard(shard, seed, tier):
     rec = Recorder()
-    viol = drive(prop=PROPERTY, name="scopes", strategy=cases(), check_case=lambda c: check_case(c, rec), rec=rec, seed=seed,
+    viol = drive(prop=PROPERTY, name="scopes", strategy=cases(tier), check_case=lambda c: check_case(c, rec), rec=rec, seed=seed,
                  max_examples=N[tier])
     out = rec.result()
     out["violations"] = viol
